@@ -50,6 +50,21 @@ def run(ctx):
                     args = ['.nothing' if (mask >> i) & 1 else pool[(k + i) % len(pool)] for i in range(n)]; k += 1
                     variadic.append(mkcase('V%d' % k, lib.new_cfg(select=['(%s %s)=x' % (f['name'], ' '.join(args))]), data))
     corpus += variadic
+    # object functions on objects with many members: which members are kept and in WHICH ORDER (member order is part of a value)
+    objs = [b'{"a": 1, "b": 2, "c": 3, "d": 4, "e": 5, "f": 6}', b'{"k3": "z", "k1": "x", "k2": "y", "k0": "x", "k4": null, "k5": [1]}', b'{"b": 2, "a": 1}', b'{}']
+    keys = ['"a"', '"b"', '"c"', '"f"', '"k1"', '"k4"', '"zz"']
+    oexprs = []
+    for kx in keys:
+        oexprs += ['(filter_keys . (!= . %s))' % kx, '(filter_keys . (= . %s))' % kx, '(put . %s 9)' % kx, '(insert_if_absent . %s 9)' % kx, '(replace_if_exists . %s 9)' % kx,
+                   '(map_keys . (? (= . %s) "new" .))' % kx, '(filter_keys (put . "g" 7) (!= . %s))' % kx]
+    for v in ['1', '2', '3', '"x"', 'null']:
+        oexprs += ['(filter_values . (!= . %s))' % v, '(filter_values . (= . %s))' % v, '(map_values . (? (= . %s) "new" .))' % v]
+    oexprs += ['(filter_keys . (or (= . "b") (= . "e")))', '(filter_keys . (and (!= . "b") (!= . "c")))', '(filter_keys . (and (!= . "a") (!= . "d")))', '(filter_values . (> . 2))', '(filter_values . (< . 5))',
+               '(keys .)', '(values .)', '(entries .)', '(sort_by_keys .)', '(sort_by_values .)', '(sort_by_values_by . (- 0 .))', '(keys (filter_keys . (!= . "b")))', '(values (filter_values . (!= . 3)))',
+               '(stringify (filter_keys . (!= . "c")))', '(keys (put (filter_keys . (!= . "a")) "a" 0))']
+    for oi, ob in enumerate(objs):
+        for ei, e in enumerate(oexprs):
+            corpus.append(mkcase('O%d_%d' % (oi, ei), lib.new_cfg(select=[e + '=x']), ob))
     # documentation examples
     docs = []; dmeta = {}
     for f in exprgen.table():
